@@ -34,12 +34,14 @@ fn plan(tier: Tier) -> Vec<Unit> {
             let mut v = crate::util::split_budget_param("small", 2 * n - 1, 100, n as i64);
             v.push(Unit { kind: "pair-table", start: 0, count: 1, param: 0 });
             v.extend(crate::util::split_budget("random", 300_000, 3_000));
+            v.extend(crate::util::split_budget("words", gen::word_values().len() as u64, 8));
             v
         }
         Tier::Thorough => {
             let mut v = crate::util::split_budget_param("small", 2 * n - 1, 500, n as i64);
             v.push(Unit { kind: "pair-table", start: 0, count: 1, param: 0 });
             v.extend(crate::util::split_budget("random", 60_000_000, 20_000));
+            v.extend(crate::util::split_budget("words", gen::word_values().len() as u64, 8));
             v
         }
         Tier::Miri => {
@@ -239,6 +241,25 @@ fn run_unit(unit: &Unit, r: &mut Rng, ctx: &mut Ctx) {
     match unit.kind {
         "small" => run_small(unit, ctx, unit.param),
         "pair-table" => run_pair_table(ctx),
+        "words" => {
+            // exhaustive: unscaled integers on the machine-word boundaries x scales {0, 5, 19, 20} x every number of
+            // dropped places 0..=23 x 7 modes
+            let w = gen::word_values();
+            for idx in unit.start..unit.start + unit.count {
+                let n = &w[idx as usize % w.len()];
+                for s in [0i64, 5, 19, 20] {
+                    for drop in 0i64..=23 {
+                        for &mode in MODES.iter() {
+                            let case = Case::new("wsr").push(Dec::new(n.clone(), s).tok()).push(s - drop).push(mode_name(mode));
+                            check_case(&case, ctx);
+                        }
+                    }
+                }
+            }
+            if unit.start == 0 {
+                ctx.exhaustive_notes.push(format!("C06 word boundaries: {} unscaled integers +-(2^k + d), +-(10^k + d), floor(2^64/10^j) + d, 2^64 - 10^19 + d (d in -1..1) x scales 0, 5, 19, 20 x 0..23 dropped places x 7 modes", w.len()));
+            }
+        }
         "random" => {
             for i in 0..unit.count {
                 let lm = if i % 20 == 0 { 3000 } else if i % 4 == 0 { 300 } else { 40 };
